@@ -35,7 +35,7 @@ def _exc_label(e):
 # worker side
 # ---------------------------------------------------------------------------------------------
 def _symbolic_worker(args):
-    prop, name, tier, seed = args
+    prop, name, tier, seed, mutant = args
     t0 = time.time()
     out = dict(name=name, mode="symbolic")
     try:
@@ -45,6 +45,10 @@ def _symbolic_worker(args):
         mod, obs = _load(prop)
         ob = [o for o in obs if o.name == name][0]
         cfg = TIER_CFG[tier]
+        if mutant is not None:
+            from . import mutants
+
+            mutants.apply(mod.MUTANTS[mutant])
         shims.install()
         if hasattr(mod, "install_shims"):
             mod.install_shims()
@@ -97,12 +101,16 @@ def _symbolic_worker(args):
 
 def _concrete_worker(args):
     """run the harness concretely (no shims, real libraries) on the given input values"""
-    prop, name, values = args
+    prop, name, values, mutant = args
     out = dict(name=name, mode="concrete")
     try:
         from . import api
 
         mod, obs = _load(prop)
+        if mutant is not None:
+            from . import mutants
+
+            mutants.apply(mod.MUTANTS[mutant])
         ob = [o for o in obs if o.name == name][0]
         vals = {k: _unjs(v) for k, v in values.items()}
         V = api.ConcV(vals)
@@ -157,14 +165,35 @@ def _match_finding(findings, prop, sig):
 # ---------------------------------------------------------------------------------------------
 # driver
 # ---------------------------------------------------------------------------------------------
-def run_check(prop, tier="quick", only=None, verbose=False, seed=0):
-    t0 = time.time()
+def run_selftest(prop, tier="quick", only=None, verbose=False):
+    """every seeded in-memory defect of the harness module must be reported as a violation"""
     sys.path.insert(0, ROOT)
+    mod, obs = _load(prop)
+    muts = getattr(mod, "MUTANTS", [])
+    res = []
+    for i, m in enumerate(muts):
+        if only and only not in m["name"]:
+            continue
+        rc, summ = run_check(prop, m.get("tier", "quick"), m.get("only"), False, 0, mutant=i, quiet=True)
+        killed = rc == 1
+        res.append(dict(name=m["name"], killed=killed, rc=rc, violations=summ.get("violations", [])[:3],
+                        problems=summ.get("problems", [])[:3]))
+        print(f"mutant {m['name']}: {'killed' if killed else 'SURVIVED rc=%d' % rc} "
+              f"{[v['signature'] for v in summ.get('violations', [])][:2]}")
+        if verbose and not killed:
+            print(summ)
+    return res
+
+
+def run_check(prop, tier="quick", only=None, verbose=False, seed=0, mutant=None, quiet=False):
+    t0 = time.time()
+    if ROOT not in sys.path:
+        sys.path.insert(0, ROOT)
     mod, obs = _load(prop)
     obs = [o for o in obs if (tier == "thorough" or o.tier == "quick") and (not only or only in o.name)]
     if not obs:
         print(f"no obligations for {prop}")
-        return HARNESS_ERROR
+        return HARNESS_ERROR, {}
     if seed:
         import random
 
@@ -172,7 +201,7 @@ def run_check(prop, tier="quick", only=None, verbose=False, seed=0):
     ctxm = mp.get_context("fork")
     nproc = min(16, len(obs), os.cpu_count() or 4)
     with ctxm.Pool(nproc, maxtasksperchild=1) as pool:
-        sym = pool.map(_symbolic_worker, [(prop, o.name, tier, seed) for o in obs], chunksize=1)
+        sym = pool.map(_symbolic_worker, [(prop, o.name, tier, seed, mutant) for o in obs], chunksize=1)
         # replay every candidate on the unshimmed library
         replay_jobs = []
         for o, r in zip(obs, sym):
@@ -181,9 +210,9 @@ def run_check(prop, tier="quick", only=None, verbose=False, seed=0):
                     replay_jobs.append((o.name, lab, m))
             for m in (r.get("path_samples") or []):
                 replay_jobs.append((o.name, None, m))
-        conc = pool.map(_concrete_worker, [(prop, n, m) for n, lab, m in replay_jobs], chunksize=1) if replay_jobs else []
+        conc = pool.map(_concrete_worker, [(prop, n, m, mutant) for n, lab, m in replay_jobs], chunksize=1) if replay_jobs else []
 
-    findings = load_findings()
+    findings = load_findings() if mutant is None else []
     violations, known, problems, mismatches = [], [], [], []
     per_ob = []
     tot = dict(paths=0, queries=0, solver_s=0.0, claims_ok=0, claims_fail=0, replays=0, validations=0)
@@ -234,7 +263,7 @@ def run_check(prop, tier="quick", only=None, verbose=False, seed=0):
                 sig = f"{o.oid}:{lab}"
                 if reproduced:
                     m, cr = reproduced
-                    path = _write_replay(prop, o, lab, m, L.get("detail") or cr.get("details", {}).get(lab))
+                    path = _write_replay(prop, o, lab, m, L.get("detail") or cr.get("details", {}).get(lab)) if not quiet else ""
                     f = _match_finding(findings, prop, sig)
                     item = dict(signature=sig, replay=path, detail=(L.get("detail") or "")[:300], model=m)
                     if f:
@@ -267,7 +296,16 @@ def run_check(prop, tier="quick", only=None, verbose=False, seed=0):
 
     wall = time.time() - t0
     shim_list = next((r.get("shims") for r in sym if r.get("shims")), [])
-    _write_evidence(prop, tier, seed, per_ob, tot, wall, violations, known, problems, mismatches, shim_list, mod)
+    if quiet:
+        rc = 1 if violations else (HARNESS_ERROR if problems else 0)
+        return rc, dict(violations=violations, problems=problems, known=known)
+    selftest = None
+    if tier == "thorough" and getattr(mod, "MUTANTS", None) and not only:
+        selftest = run_selftest(prop)
+        for r in selftest:
+            if not r["killed"]:
+                problems.append(f"self-test: seeded defect {r['name']} was not reported (rc={r['rc']})")
+    _write_evidence(prop, tier, seed, per_ob, tot, wall, violations, known, problems, mismatches, shim_list, mod, selftest)
     for f, item in known:
         print(f"KNOWN-FINDING: property={prop} {f['what']} [{item['signature']}]")
     for mm in mismatches:
@@ -279,12 +317,12 @@ def run_check(prop, tier="quick", only=None, verbose=False, seed=0):
     print(f"{prop} {tier}: {len(per_ob)} obligations, {nh} hold, {len(known)} known findings, {len(violations)} violations, "
           f"{tot['paths']} paths, {tot['queries']} solver queries, solver {tot['solver_s']:.1f}s, wall {wall:.1f}s")
     if violations:
-        return 1
+        return 1, {}
     if problems:
         for p in problems:
             print("HARNESS-PROBLEM:", p)
-        return HARNESS_ERROR
-    return 0
+        return HARNESS_ERROR, {}
+    return 0, {}
 
 
 def _write_replay(prop, o, lab, model, detail):
@@ -301,7 +339,7 @@ def run_replay(prop, path):
     sys.path.insert(0, ROOT)
     rp = json.load(open(path))
     _load(prop)
-    r = _concrete_worker((prop, rp["obligation"], rp["values"]))
+    r = _concrete_worker((prop, rp["obligation"], rp["values"], None))
     print(json.dumps(r, indent=1))
     if rp["label"] in r.get("failed", []):
         print(f"REPRODUCED {rp['label']} on the real code")
@@ -310,7 +348,7 @@ def run_replay(prop, path):
     return 0
 
 
-def _write_evidence(prop, tier, seed, per_ob, tot, wall, violations, known, problems, mismatches, shim_list, mod):
+def _write_evidence(prop, tier, seed, per_ob, tot, wall, violations, known, problems, mismatches, shim_list, mod, selftest=None):
     os.makedirs(os.path.join(ROOT, "evidence"), exist_ok=True)
     samples = []
     for r in per_ob[:40]:
@@ -342,6 +380,7 @@ def _write_evidence(prop, tier, seed, per_ob, tot, wall, violations, known, prob
             validation_mismatches=mismatches,
             stubs_and_shims=shim_list + list(getattr(mod, "STUBS", [])),
             clauses_outside_claim=list(getattr(mod, "OUTSIDE", [])),
+            seeded_defect_selftest=selftest,
         ),
         assumptions=["Python float modelled as mathematical real (IEEE rounding outside the claim)",
                      "Python int modelled as mathematical integer"] + list(getattr(mod, "ASSUMPTIONS", [])),
